@@ -45,7 +45,11 @@ Seeds == <<
     "2020-03-15\nfoo\n bar\n",
     "2020-03-14\n    8:00 - 9:00\n\n2020-03-15\n    10:00 - 11:00\n    12:00 - ?\n\n2020-03-16\n    1h\n",
     "2020-03-14\r\n    8:00 - 9:00\r\n\r\n2020-03-15\r\n    1h\r\n",
-    "2020-03-15\n   9:00pm - ???\n      note\n"
+    "2020-03-15\n   9:00pm - ???\n      note\n",
+    "<<no such file>>",
+    "2020-03-15\r\n    1h\n    2h Bar\n",
+    "2020-03-13\r\n    1h\r\n\r\n2020-03-14\n    3h\n\r\n2020-03-16\r\n    1h\r\n",
+    "2020-03-14\n    22:00 - ? x\r\n        more\n\n2020-03-15\r\n\t9:00 - ?\n\t\tnote\r\n"
 >>
 NSeeds == Len(Seeds)
 
@@ -157,7 +161,8 @@ CfgText(cfg) ==
 
 Step(c, now, cfg) == [args |-> ToArgs(c), now |-> Stamp(now, 0), ticks |-> [j \in 1..Len(c.ticks) |-> Stamp(now, c.ticks[j])],
                       cmd |-> c, nowv |-> now, cfgv |-> cfg]
-CaseOf(s, h) == [kind |-> "cli", files |-> ("f.klg" :> SeedText(s)), cfg |-> CfgText(h[1].cfgv), parse |-> TRUE,
+NoFile(s) == SeedText(s) = "<<no such file>>"
+CaseOf(s, h) == [kind |-> "cli", files |-> IF NoFile(s) THEN ("other.klg" :> "2020-03-15\n    1h\n") ELSE ("f.klg" :> SeedText(s)), cfg |-> CfgText(h[1].cfgv), parse |-> TRUE,
                  repeat |-> IF Mode = "clock" THEN 1 ELSE IF Full THEN 3 ELSE 2, cmds |-> h]
 
 (***************************************************************************)
@@ -191,19 +196,20 @@ Apply(m, RR) ==
 (***************************************************************************)
 (* Behaviour: choose a seed, then extend the history command by command.    *)
 (***************************************************************************)
-Depth == IF Mode \in {"single", "clock"} THEN 1 ELSE IF Mode = "pairs" THEN 2 ELSE 3
+Depth == IF Mode \in {"single", "clock"} THEN 1 ELSE IF Mode = "pairs" THEN 2 ELSE IF Mode = "long" THEN 12 ELSE 3
 Pool(k) == IF Mode = "single" THEN AllCmds ELSE IF Mode = "clock" THEN ClockCmds ELSE HistCmds
 SeedSet == IF Mode = "single" THEN 1..NSeeds
            ELSE IF Mode = "clock" THEN {10 * lay + d : lay \in 0..5, d \in 0..4}
            ELSE IF Mode = "pairs" THEN {3, 4, 5, 7, 10, 17, 22}
+           ELSE IF Mode = "long" THEN {1, 4, 7, 8, 11, 13, 22, 23}
            ELSE {3 + (SeedN % 3), 22}
 
-Data(text) == LET p == ParseDoc(text) IN IF p.ok THEN DocData(p) ELSE <<>>
+Data(text) == LET p == ParseDoc(text) IN IF p.ok /\ text # "<<no such file>>" THEN DocData(p) ELSE <<>>
 
 Init == /\ seed \in SeedSet
         /\ hist = <<>>
         /\ R = Data(SeedText(seed))
-        /\ ok = (ParseDoc(SeedText(seed)).status = "Conforming")
+        /\ ok = (ParseDoc(SeedText(seed)).status = "Conforming" /\ ~NoFile(seed))
 NowAt(k) == [Now0 EXCEPT !.min = @ + 7 * k]       \* the clock advances between the commands of a history
 Now2350 == [Now0 EXCEPT !.min = 23 * 60 + 50, !.sec = 0]
 Now0002 == [Now0 EXCEPT !.min = 2, !.sec = 59]
